@@ -31,7 +31,8 @@ import loadgen as G
 from sexp import Sym, dumps
 
 PROP = 'C18'
-RULE = ('exhaustive histories up to length 4 (thorough: 5) over the alphabet {input, build} + {mut k m : k in {0,1}, '
+RULE = ('exhaustive histories up to length 4 (thorough: 5) over the alphabet {input, build, reject (an input call whose text is a valid '
+        'prefix followed by a syntax error: raises ParsingException, nothing is accepted)} + {mut k m : k in {0,1}, '
         'm in a fixed list of 10 mutations} + 3 clone operations, and of length 5 (thorough: 6) over a reduced alphabet of 5 mutations, on a '
         'fixed two-class scenario, only histories with a build whose mutations target an already built metamodel; '
         'plus random histories of length <= 12 over '
@@ -190,7 +191,10 @@ def _random_case(rng, maxlen):
         if r < 0.3:
             ops.append(['input'])
             continue
-        if r < 0.42:
+        if r < 0.36:
+            ops.append(['reject', rng.randrange(2)])
+            continue
+        if r < 0.47:
             ops.append(['build'])
             continue
         k = rng.randrange(len(metas))
@@ -267,7 +271,7 @@ def _random_case(rng, maxlen):
 
 
 def generate(ctx):
-    alphabet = [['input'], ['build']] + [['mut', k, m] for k in (0, 1) for m in FIXED_MUTS] + FIXED_CLONES
+    alphabet = [['input'], ['build'], ['reject', 0]] + [['mut', k, m] for k in (0, 1) for m in FIXED_MUTS] + FIXED_CLONES
     reduced = [['input'], ['build']] + [['mut', k, FIXED_MUTS[i]] for k in (0, 1) for i in REDUCED] + FIXED_CLONES[:2]
     full_len = ctx.pick(4, 5)
     for n in range(1, full_len + 1):
@@ -576,6 +580,17 @@ def run_impl(case):
             text = G.text_of(chunks[len(accepted)]) if len(accepted) < len(chunks) else ''
             loader.input(text)
             accepted.append(text)
+        elif op[0] == 'reject':
+            # an input call that is refused: a valid prefix (the text of the chunk that would be read next — or of the
+            # last one — so that a leaked prefix shows in every later build), then a syntax error / an illegal character
+            prefix = G.text_of(chunks[min(len(accepted), len(chunks) - 1)])
+            bad = prefix + ("INSERT INTO KZ VALUES (1) oops;\n" if op[1] == 0 else "INSERT INTO KZ VALUES (1, $);\n")
+            try:
+                loader.input(bad)
+                fail('rejected-input-accepted', 'step %d: input of a text with a syntax error raised nothing' % step)
+                res = Sym('accepted')
+            except _x.ParsingException:
+                pass
         elif op[0] == 'build':
             try:
                 m = loader.build_metamodel(_x.IntegerGenerator())
@@ -631,6 +646,11 @@ def run_impl(case):
             if now != sig:
                 if op[0] == 'input' and o is loader.statements and isinstance(sig, list) and now[:len(sig)] == sig:
                     continue
+                if op[0] == 'reject' and o is loader.statements:
+                    fail('rejected-input-kept', 'step %d: the input call raised ParsingException, but %d statement(s) of its text '
+                         'stayed in the loader (the metamodels built later contain input that was never accepted)'
+                         % (step, len(now) - len(sig) if isinstance(sig, list) else -1))
+                    break
                 fail('shared-write:%s' % role.split('[')[0][:40],
                      'step %d (%s) wrote an object (%s, reached as %s from %s) that the step\'s target does not own'
                      % (step, dumps(_enc_op(op, case)), type(o).__name__, role, root))
@@ -690,6 +710,8 @@ def _enc_op(op, case):
         return [Sym('mut'), op[1], _enc_mut(op[2])]
     if op[0] == 'clone':
         return [Sym('clone'), op[1], op[2], op[3], op[4]]
+    if op[0] == 'reject':
+        return [Sym('rejected')]
     return [Sym(op[0])]
 
 
@@ -735,5 +757,5 @@ def shrink_candidates(case):
                     new.append(o)
             if ok:
                 yield dict(case, ops=new)
-        elif ops[i][0] in ('mut', 'clone'):
+        elif ops[i][0] in ('mut', 'clone', 'reject'):
             yield dict(case, ops=ops[:i] + ops[i + 1:])
